@@ -211,15 +211,19 @@ func extractQuintuple(packet gopacket.Packet) []byte {
 	case layers.IPProtocolTCP:
 		pos := len(q)
 		q = append(q, 0, 0, 0, 0)
-		tcp := packet.Layer(layers.LayerTypeTCP).(*layers.TCP)
-		binary.BigEndian.PutUint16(q[pos:pos+2], uint16(tcp.SrcPort))
-		binary.BigEndian.PutUint16(q[pos+2:pos+4], uint16(tcp.DstPort))
+		// The forwarder only validates the IP header: the transport header may
+		// be missing or malformed, such packets hash on the addresses alone.
+		if tcp, ok := packet.Layer(layers.LayerTypeTCP).(*layers.TCP); ok {
+			binary.BigEndian.PutUint16(q[pos:pos+2], uint16(tcp.SrcPort))
+			binary.BigEndian.PutUint16(q[pos+2:pos+4], uint16(tcp.DstPort))
+		}
 	case layers.IPProtocolUDP:
 		pos := len(q)
 		q = append(q, 0, 0, 0, 0)
-		udp := packet.Layer(layers.LayerTypeUDP).(*layers.UDP)
-		binary.BigEndian.PutUint16(q[pos:pos+2], uint16(udp.SrcPort))
-		binary.BigEndian.PutUint16(q[pos+2:pos+4], uint16(udp.DstPort))
+		if udp, ok := packet.Layer(layers.LayerTypeUDP).(*layers.UDP); ok {
+			binary.BigEndian.PutUint16(q[pos:pos+2], uint16(udp.SrcPort))
+			binary.BigEndian.PutUint16(q[pos+2:pos+4], uint16(udp.DstPort))
+		}
 	}
 	return q
 }
